@@ -13,16 +13,17 @@ import (
 // the domain (the property covers them) but at a low rate so that most cases
 // are free to reveal something new.
 var triggerRates = map[string]int{
-	"xname":           7,
-	"dotimes-result":  7,
-	"qqdata":          7,
-	"macrolet":        7,
-	"tmpl-shadow":     7,
-	"redefine":        6,
-	"samefile-import": 7,
+	"xname":           8,
+	"dotimes-result":  4,
+	"qqdata":          8,
+	"macrolet":        6,
+	"tmpl-shadow":     8,
+	"redefine":        5,
+	"samefile-import": 4,
+	"defname":         6,
 }
 
-var triggerOrder = []string{"xname", "dotimes-result", "qqdata", "macrolet", "tmpl-shadow", "redefine", "samefile-import"}
+var triggerOrder = []string{"xname", "dotimes-result", "qqdata", "macrolet", "tmpl-shadow", "redefine", "samefile-import", "defname"}
 
 type planned struct {
 	b      *bind
@@ -42,6 +43,12 @@ func (g *gen) planGlobal(kind string) *bind {
 	var name string
 	for tries := 0; tries < 8; tries++ {
 		name = g.fixName(g.pick(pool))
+		if kind == "macro" && strings.HasPrefix(name, "def") {
+			if !g.trig["defname"] {
+				continue
+			}
+			g.feat("def-named-macro")
+		}
 		if g.chance(15) {
 			// also draw from the exclusion list so exclusions matter
 			var ex []string
@@ -54,6 +61,12 @@ func (g *gen) planGlobal(kind string) *bind {
 			}
 		}
 		old := g.cur.own[name]
+		if g.cur.imports[name] != nil {
+			// defining a name the package already imported would make the one
+			// package-level binding refer to two different things over time
+			name = ""
+			continue
+		}
 		if old == nil {
 			break
 		}
@@ -82,6 +95,12 @@ func (g *gen) define(b *bind) {
 }
 
 func (g *gen) defun(b *bind) {
+	if old := g.cur.own[b.name]; old != nil && old.kind == "defun" && old.id == b.id && old.sig != nil {
+		// a redefinition keeps the signature and result type, so the callers
+		// generated against the first definition stay well typed
+		g.defunWithSig(b, &sig{req: old.sig.req, opt: old.sig.opt, rest: old.sig.rest, keys: append([]string{}, old.sig.keys...), ret: old.sig.ret})
+		return
+	}
 	s := &sig{}
 	switch k := g.intn(100); {
 	case k < 76:
@@ -115,6 +134,10 @@ func (g *gen) defun(b *bind) {
 			}
 		}
 	}
+	g.defunWithSig(b, s)
+}
+
+func (g *gen) defunWithSig(b *bind, s *sig) {
 	b.sig = s
 	g.e.head("defun")
 	g.bindOcc(b)
@@ -202,6 +225,7 @@ func (g *gen) paramListKeys(s *sig) []*bind {
 		keys[i] = k
 		b := g.newLocal(k, "param", Ty{'o', 0})
 		ps = append(ps, b)
+		s.keyIDs = append(s.keyIDs, b.id)
 		g.bindOcc(b)
 	}
 	g.e.close()
@@ -336,6 +360,7 @@ func (g *gen) section(p *pkg, first bool, earlier []*pkg) {
 		g.e.nl()
 		for _, b := range q.exports {
 			p.imports[b.name] = b
+			p.impFile[b.name] = g.fileIdx
 		}
 	}
 	// plan
@@ -397,6 +422,19 @@ func (g *gen) section(p *pkg, first bool, earlier []*pkg) {
 			g.e.nl()
 		}
 		g.define(b)
+		if b.kind == "gset" && b.ty.K == 'n' && g.chance(25) {
+			// a second top-level set of the same name
+			g.feat("top-level-reset")
+			g.e.head("set")
+			g.e.quote()
+			g.e.sym(Occ{N: b.name, R: "ref", B: b.id, K: "gset", C: "set-target"})
+			g.e.head("+")
+			g.ref(cand{b, false}, "")
+			g.e.lit("1")
+			g.e.close()
+			g.e.close()
+			g.e.nl()
+		}
 		if g.chance(55) {
 			g.driver(b)
 			driven[b] = true
@@ -520,7 +558,7 @@ func genCase() *rapid.Generator[Case] {
 			if g.pkgs[name] != nil {
 				continue
 			}
-			p := &pkg{name: name, own: map[string]*bind{}, imports: map[string]*bind{}}
+			p := &pkg{name: name, own: map[string]*bind{}, imports: map[string]*bind{}, impFile: map[string]int{}}
 			g.pkgs[name] = p
 			pks = append(pks, p)
 		}
